@@ -36,7 +36,8 @@ func RunOne(t *testing.T, c *Check, req *Request) *Outcome {
 		defer func() {
 			if r := recover(); r != nil {
 				rc.Logf("PANIC in run goroutine: %v", r)
-				rc.Report(Item{Prop: "C20", Clause: "C20.panic", Detail: fmt.Sprintf("panic: %v\n%s", r, trimStack(debug.Stack())), Fields: map[string]string{"where": "run-goroutine"}})
+				st := debug.Stack()
+				rc.Report(Item{Prop: "C20", Clause: "C20.panic", Detail: fmt.Sprintf("panic: %v\n%s", r, trimStack(st)), Fields: map[string]string{"where": "run-goroutine", "frame": sutFrame(st), "panic": fmt.Sprint(r)}})
 			}
 		}()
 		c.Run(rc)
@@ -113,4 +114,19 @@ func WorkerLoop(t *testing.T, get func(string) *Check) {
 		}
 		w.Flush()
 	}
+}
+
+// sutFrame returns the innermost data-server function on a stack trace.
+func sutFrame(st []byte) string {
+	lines := strings.Split(string(st), "\n")
+	for i := 0; i+1 < len(lines); i++ {
+		if strings.Contains(lines[i+1], "/repo/pkg/") && !strings.HasPrefix(lines[i], "\t") {
+			f := lines[i]
+			if j := strings.LastIndex(f, "("); j > 0 {
+				f = f[:j]
+			}
+			return strings.TrimPrefix(f, "github.com/sdcio/data-server/pkg/")
+		}
+	}
+	return "?"
 }
